@@ -1,4 +1,6 @@
 import VlsModel.Model.NodeReq
+import VlsModel.Props.C02
+import VlsModel.Props.C13
 /-
 C10 — A refused request changes nothing.
 
@@ -130,6 +132,36 @@ theorem C10_frame_node_run (c : Cfg) (ops : List Op) : ∀ (s sf : St) (rs : Lis
         have hf := C10_frame_node c s s1 op hs
         have := ih s1 s2 rs2 hr (fun r hr' => hall r (by simp [hr']))
         exact ⟨this.1.trans hf.1, this.2.trans hf.2⟩
+
+/-! ### The channel-level and tracker-level instances
+
+The same frame statement for the other two stateful components, proved on their own models (which
+are tied to the code by their own correspondence runs) and collected here so that C10 is visibly
+covered for every component the property names. -/
+
+/-- **C10 for channel requests** (validate / revoke / activate / get-point / get-secret / sign-holder /
+    mutual close / sign-counterparty / counterparty revocation and the protocol-version composites): a
+    refused request leaves the in-memory enforcement state of the channel unchanged, for every state. -/
+theorem C10_frame_channel (F : Nat → Secrets.Bytes → Secrets.Bytes) (s s' : Enforcement.Sys)
+    (op : Enforcement.Op) (o : Enforcement.Out)
+    (hs : Enforcement.step F s op = (s', o)) (h : o.res.isErr = true) : s'.mem = s.mem :=
+  C02.Enforcement_frame_mem F s s' op o hs h
+
+/-- … and the persisted channel entry too, whenever it was up to date before the request. -/
+theorem C10_frame_channel_store (F : Nat → Secrets.Bytes → Secrets.Bytes) (s s' : Enforcement.Sys)
+    (op : Enforcement.Op) (o : Enforcement.Out) (hd : s.disk = s.mem)
+    (hs : Enforcement.step F s op = (s', o)) (h : o.res.isErr = true) : s' = s :=
+  C02.Enforcement_frame F s s' op o hd hs h
+
+/-- **C10 for the chain tracker**: a rejected block addition or removal (any delivery type) leaves
+    headers, tip, height and listeners unchanged. -/
+theorem C10_frame_tracker_add (t : Tracker.Tracker) (h : Tracker.Header) (p : Tracker.Proof) (k : Tracker.ErrKind)
+    (hr : (Tracker.addBlock t h p).2 = .err k) : (Tracker.addBlock t h p).1.view = t.view :=
+  C13.C13_atomic_add_view t h p k hr
+
+theorem C10_frame_tracker_remove (t : Tracker.Tracker) (p : Tracker.Proof) (v : Tracker.Headers) (k : Tracker.ErrKind)
+    (hr : (Tracker.removeBlock t p v).2 = .err k) : (Tracker.removeBlock t p v).1.view = t.view :=
+  C13.C13_atomic_remove_view t p v k hr
 
 /-! ### Non-vacuity -/
 
